@@ -46,7 +46,13 @@ def _alarm(signum, frame):
     raise _Timeout()
 
 
+def _quiet_unraisable(unraisable):
+    # coroutines of an abandoned simulated world are finalised after their loop is closed
+    pass
+
+
 def _worker_init():
+    sys.unraisablehook = _quiet_unraisable
     signal.signal(signal.SIGALRM, _alarm)
     try:
         faulthandler.enable()
@@ -280,6 +286,13 @@ class Reporter:
         self.known = load_known()
         self.new = {}  # (clause, subject) -> (case, violation)
         self.known_hit = {}  # (clause) -> entry
+        import glob
+
+        for old in glob.glob(os.path.join(VERIF, "replays", f"{prop}-*.json")):
+            try:
+                os.remove(old)
+            except OSError:
+                pass
 
     def add(self, case, violation):
         clause = violation["clause"]
